@@ -1,4 +1,5 @@
-(* C17 - contains_point agrees with the fill rule. *)
+(* C17 - contains_point agrees with the fill rule.
+   Further down (ContainsF32.v, Flocq): the binary32 procedure equals the integer one, hence the statement, on the quarter grid within +-512 px. *)
 Require Import RQ.Base RQ.Raster RQ.Contains.
 
 (* For every flat path (any number of subpaths, open or closed, either orientation,
